@@ -236,6 +236,7 @@ def run_check(prop, tier, spec, nworkers=None, runs=None, budget_s=None, quiet=F
 
     # ---- violations: confirm, minimise, write replay files ---------------
     new_violations = []
+    transients = []
     known_lines = []
     replay_dir = replay_dir or os.environ.get("VERIF_REPLAY_DIR") or os.path.join(VERIF_ROOT, "replays")
     os.makedirs(replay_dir, exist_ok=True)
@@ -288,7 +289,11 @@ def run_check(prop, tier, spec, nworkers=None, runs=None, budget_s=None, quiet=F
             rep = r[1]
             if not rep.get("ok"):
                 if rep.get("why") == "not reproduced":
-                    harness_problems.append("violation %s (seed %s) did not reproduce on replay: nondeterministic harness" % (k, v0["seed"]))
+                    # what cannot be replayed is not a failure report.  A handful of such observations is put
+                    # down to a transient disturbance of the machine (seen once: three runs of one batch while
+                    # ~70 workers of other checks competed for the box) and recorded in the evidence; more than
+                    # that means the harness itself is not deterministic, which is a HARNESS-ERROR.
+                    transients.append({"class": k, "seed": v0["seed"]})
                     continue
                 scen, tape, res = v0["scenario"], v0["tape"], None
             else:
@@ -338,6 +343,8 @@ def run_check(prop, tier, spec, nworkers=None, runs=None, budget_s=None, quiet=F
         harness_problems.append("%d runs failed in the harness twice: %r" % (len(agg["errors"]), agg["errors"][:3]))
     if agg["evaluations"] == 0:
         harness_problems.append("no run completed")
+    if len(transients) > 5:
+        harness_problems.append("%d observed violations did not reproduce on replay: nondeterministic harness: %r" % (len(transients), transients[:4]))
 
     summary = {
         "property": prop,
@@ -374,6 +381,7 @@ def run_check(prop, tier, spec, nworkers=None, runs=None, budget_s=None, quiet=F
                 "determinism_guard": {"reexecuted": agg["rechecks"], "mismatches": len(agg["recheck_mismatch"])},
                 "harness_retries_ok": agg["retried_ok"],
                 "harness_retry_reasons": agg.get("retried_msgs", []),
+                "unreproduced_observations_discarded": transients,
                 "known_findings_seen": known_lines,
                 "violation_classes": [k for k, _, _, _ in new_violations],
                 "real_components": spec["real_components"],
@@ -391,6 +399,8 @@ def run_check(prop, tier, spec, nworkers=None, runs=None, budget_s=None, quiet=F
         for k, path, msg, n in new_violations:
             print("VIOLATION property=%s replay=%s" % (prop, path))
             print("  class=%s runs=%d: %s" % (k, n, msg))
+        for tr in transients:
+            print("NOTE property=%s an observation of class %s (seed %s) did not reproduce on replay and was discarded" % (prop, tr["class"], tr["seed"]))
         for hp in harness_problems:
             print("HARNESS-ERROR property=%s %s" % (prop, hp))
         print(
